@@ -41,6 +41,11 @@ pub enum ImportKind {
     CaughtFailTop,
     /// a module that runs fine but exports a non-callable `@main`
     BadMain,
+    /// a module whose top level fails or not, depending on a switch of the host
+    /// (`FLAKY_FAILS()`): a module that changed between two imports
+    Flaky,
+    /// the failing module reached through a second spelling of its path
+    FailTopDotted,
 }
 
 #[derive(Clone, Copy, Debug, PartialEq, Eq, Hash)]
@@ -75,6 +80,14 @@ pub enum Op {
     RunBad,
     Import(ImportKind),
     Spin(SpinKind),
+    /// the host flips the switch the `flaky` module reads
+    SetFlaky(bool),
+    /// Koto::clear_module_cache(): every module is compiled and run again at its next import
+    ClearCache,
+    /// export an iterator over a value whose `@next` always throws, and a function pulling from it
+    MakeNext,
+    /// the host pulls from that iterator (through the exported function): fails every time
+    PullNext,
 }
 
 impl Op {
@@ -94,6 +107,10 @@ impl Op {
             Op::RunBad => "RunBad",
             Op::Import(_) => "Import",
             Op::Spin(_) => "Spin",
+            Op::SetFlaky(_) => "SetFlaky",
+            Op::ClearCache => "ClearCache",
+            Op::MakeNext => "MakeNext",
+            Op::PullNext => "PullNext",
         }
     }
 }
@@ -117,8 +134,72 @@ pub const MODULES: &[(&str, &str)] = &[
     ("cyc_b.koto", "import cyc_a\nexport b = 1\n"),
     ("badsyntax.koto", "export q = (1 +\n"),
     ("badmain.koto", "export v = 5\n@main = 42\n"),
+    ("flaky.koto", "export fv = 7\nmark(4343)\nif FLAKY_FAILS()\n  throw 'FLAKY'\n"),
     ("main.koto", "# placeholder for the importing script\n"),
 ];
+
+pub const MAKE_NEXT_SCRIPT: &str = "export NIT = iterator.iter\n  @next: || throw 'NX'\nexport NPULL = || NIT.next()\n'made'\n";
+
+/// What the host-side operations leave behind, as far as later operations can tell
+#[derive(Clone, Debug, Default)]
+pub struct HostModel {
+    pub flaky_fails: bool,
+    /// the `flaky` module is in the runtime's module cache (it is not run again)
+    pub flaky_cached: bool,
+    /// NIT / NPULL are exported
+    pub next_made: bool,
+}
+
+impl HostModel {
+    /// the prediction for one of the simple host operations (None: not one of them)
+    pub fn predict(&mut self, op: &Op, clears_exports: bool) -> Option<Prediction> {
+        let mut pr = Prediction::default();
+        match op {
+            Op::SetFlaky(b) => {
+                self.flaky_fails = *b;
+                pr.result = Ok("null".into());
+            }
+            Op::ClearCache => {
+                self.flaky_cached = false;
+                crate::simmodel::set_okmod_loaded(false);
+                pr.result = Ok("null".into());
+            }
+            Op::MakeNext => {
+                self.next_made = true;
+                pr.result = Ok("made".into());
+            }
+            Op::PullNext => {
+                pr.result = Err(if self.next_made { "NX".into() } else { "no exported function named 'NPULL' found".to_string() });
+                pr.error_occurred = true;
+            }
+            Op::Import(ImportKind::Flaky) => {
+                if clears_exports {
+                    self.next_made = false;
+                }
+                if self.flaky_cached {
+                    pr.result = Ok("7".into());
+                } else {
+                    pr.markers = vec![4343];
+                    if self.flaky_fails {
+                        pr.result = Err("FLAKY".into());
+                        pr.error_occurred = true;
+                    } else {
+                        pr.result = Ok("7".into());
+                        self.flaky_cached = true;
+                    }
+                }
+            }
+            Op::Run { .. } | Op::RunBad | Op::Import(_) => {
+                if clears_exports {
+                    self.next_made = false;
+                }
+                return None;
+            }
+            _ => return None,
+        }
+        Some(pr)
+    }
+}
 
 pub fn make_gen_script(func: usize) -> String {
     format!(
@@ -136,6 +217,9 @@ fn import_script(k: ImportKind) -> &'static str {
         ImportKind::BadSyntax => "import badsyntax\n1\n",
         ImportKind::Missing => "import nosuchmodule\n1\n",
         ImportKind::BadMain => "import badmain\n1\n",
+        ImportKind::Flaky => "import flaky\nflaky.fv\n",
+        // (`<dir>` is replaced by the name of the directory the scripts live in)
+        ImportKind::FailTopDotted => "import '../<dir>/failtop' as ft\n1\n",
         ImportKind::CaughtFailTop => "r = try\n  import failtop\n  1\ncatch e\n  2\nr\n",
     }
 }
@@ -151,6 +235,7 @@ fn import_error_prefix(k: ImportKind) -> &'static str {
         ImportKind::BadSyntax => "expected expression",
         ImportKind::Missing => "unable to find module 'nosuchmodule'",
         ImportKind::BadMain => "expected callable function, found Number",
+        ImportKind::FailTopDotted => "FT",
         _ => "",
     }
 }
@@ -364,6 +449,17 @@ pub fn gen_history(seed: u64) -> History {
                 ImportKind::CaughtFailTop,
                 ImportKind::BadMain,
             ])),
+            19 if !with_limit && r.chance(2, 3) => match r.below(8) {
+                0 => Op::SetFlaky(true),
+                1 => Op::SetFlaky(false),
+                2 => Op::ClearCache,
+                3 | 4 => Op::Import(ImportKind::Flaky),
+                5 => Op::Import(ImportKind::FailTopDotted),
+                // (histories whose instance runs tests clear the exports all the time)
+                6 if !run_tests => Op::MakeNext,
+                7 if !run_tests => Op::PullNext,
+                _ => Op::Import(ImportKind::Flaky),
+            },
             19 if with_limit => Op::Spin(*r.pick(&[
                 SpinKind::Top,
                 SpinKind::InNativeCallback,
@@ -375,7 +471,41 @@ pub fn gen_history(seed: u64) -> History {
         };
         ops.push(op);
     }
-    if many_failing_calls && cur_funcs > 0 {
+    if !with_limit && k.chance(1, 10) {
+        // a module that changes between imports (the host clears the loader's cache, as
+        // documented, for it to be compiled again): the storyline, with random substitutions
+        let story = [
+            Op::Import(ImportKind::Flaky),
+            Op::ClearCache,
+            Op::SetFlaky(true),
+            Op::Import(ImportKind::Flaky),
+            Op::Import(ImportKind::Flaky),
+            Op::SetFlaky(false),
+            Op::Import(ImportKind::Flaky),
+            Op::Import(ImportKind::Ok),
+        ];
+        for op in story {
+            if r.chance(1, 5) {
+                ops.push(match r.below(6) {
+                    0 => Op::SetFlaky(true),
+                    1 => Op::SetFlaky(false),
+                    2 => Op::ClearCache,
+                    3 => Op::Import(ImportKind::FailTopDotted),
+                    4 => Op::Import(ImportKind::Ok),
+                    _ => Op::Import(ImportKind::Flaky),
+                });
+            } else if !r.chance(1, 8) {
+                ops.push(op);
+            }
+        }
+    }
+    if many_failing_calls && !with_limit && !run_tests && r.chance(1, 3) {
+        // (the same, for failures inside a VM that an exported iterator owns)
+        ops.push(Op::MakeNext);
+        for _ in 0..r.range(40, 110) {
+            ops.push(Op::PullNext);
+        }
+    } else if many_failing_calls && cur_funcs > 0 {
         // residue that accumulates per failure only misbehaves past a threshold
         let n = r.range(40, 110);
         for _ in 0..n {
@@ -533,6 +663,8 @@ pub struct Instance {
     pub ts: SharedTick,
     pub exports: KMap,
     pub script_path: String,
+    /// the switch read by the `flaky` module
+    pub flaky: std::sync::Arc<std::sync::atomic::AtomicBool>,
 }
 
 pub fn new_instance(h: &History, scratch: &Scratch) -> Instance {
@@ -544,8 +676,14 @@ pub fn new_instance(h: &History, scratch: &Scratch) -> Instance {
     });
     let ts: SharedTick = Default::default();
     add_sim_natives(&host, &ts);
+    let flaky = std::sync::Arc::new(std::sync::atomic::AtomicBool::new(false));
+    let flag = flaky.clone();
+    host.koto.prelude().add_fn("FLAKY_FAILS", move |_| {
+        Ok(flag.load(std::sync::atomic::Ordering::SeqCst).into())
+    });
     let exports = host.koto.exports().clone();
     Instance {
+        flaky,
         clear_exports_before_run: h.run_tests,
         host,
         ts,
@@ -633,6 +771,7 @@ pub fn exec_op(
     clock.reset_keep_time(CostProfile::constant(1), 1, step_cap, 1_000);
     let script_path = inst.script_path.clone();
     let clear_exports = inst.clear_exports_before_run;
+    let flaky = inst.flaky.clone();
     let koto = &mut inst.host.koto;
     let r = catch_unwind(AssertUnwindSafe(|| -> Result<String, String> {
         let render = |koto: &mut Koto, r: koto::Result<KValue>| match r {
@@ -713,12 +852,34 @@ pub fn exec_op(
                 if clear_exports {
                     koto.exports_mut().clear();
                 }
-                let args = koto::CompileArgs::new(import_script(*k)).script_path(script_path.as_str());
+                let dir_name = std::path::Path::new(script_path.as_str())
+                    .parent()
+                    .and_then(|d| d.file_name())
+                    .map(|n| n.to_string_lossy().to_string())
+                    .unwrap_or_default();
+                let script = import_script(*k).replace("<dir>", &dir_name);
+                let args = koto::CompileArgs::new(script.as_str()).script_path(script_path.as_str());
                 let r = koto.compile_and_run(args);
                 render(koto, r)
             }
             Op::Spin(k) => {
                 let r = koto.compile_and_run(spin_script(*k));
+                render(koto, r)
+            }
+            Op::SetFlaky(b) => {
+                flaky.store(*b, std::sync::atomic::Ordering::SeqCst);
+                Ok("null".into())
+            }
+            Op::ClearCache => {
+                koto.clear_module_cache();
+                Ok("null".into())
+            }
+            Op::MakeNext => {
+                let r = koto.compile_and_run(MAKE_NEXT_SCRIPT);
+                render(koto, r)
+            }
+            Op::PullNext => {
+                let r = koto.call_exported_function("NPULL", &[]);
                 render(koto, r)
             }
         }
@@ -834,15 +995,19 @@ pub fn evaluate(h: &History, ws: &HistWorkerState) -> HistEval {
     let mut residue_seen = 0u64;
 
     let mut okmod_loaded = false;
+    let mut host_model = HostModel::default();
     for (i, op) in h.ops.iter().enumerate() {
         // the model's prediction for this operation
         crate::simmodel::set_okmod_loaded(okmod_loaded);
+        let simple = host_model.predict(op, h.run_tests);
         let mut expect_markers: Option<Vec<u32>> = None;
         let mut pred: Option<Prediction> = None;
         let mut expect_err_only: Option<bool> = None; // Some(true) = must fail, Some(false) = must succeed
         let mut expect_value: Option<String> = None;
         let mut source: Option<String> = None;
         match op {
+            _ if simple.is_some() => pred = simple,
+            Op::SetFlaky(_) | Op::ClearCache | Op::MakeNext | Op::PullNext => unreachable!(),
             Op::Run { prog, plan, tests, main_call } => {
                 let printed = print_run(prog, first_run || h.run_tests, tests, *main_call);
                 first_run = false;
@@ -1297,6 +1462,10 @@ pub fn history_to_json(h: &History) -> Value {
             Op::RunBad => json!({"op": "Run", "source": "x = (1 +\n"}),
             Op::Import(k) => json!({"op": "RunWithPath", "source": import_script(*k), "import_kind": format!("{k:?}")}),
             Op::Spin(k) => json!({"op": "Run", "source": spin_script(*k), "spin_kind": format!("{k:?}")}),
+            Op::SetFlaky(b) => json!({"op": "SetFlaky", "fails": b}),
+            Op::ClearCache => json!({"op": "ClearModuleCache"}),
+            Op::MakeNext => json!({"op": "MakeNext", "source": MAKE_NEXT_SCRIPT}),
+            Op::PullNext => json!({"op": "Call", "function": "NPULL", "args": []}),
         })
         .collect();
     json!({
@@ -1343,14 +1512,21 @@ pub fn replay(doc: &Value) -> (Option<(String, String)>, u64) {
                     "BadSyntax" => ImportKind::BadSyntax,
                     "Missing" => ImportKind::Missing,
                     "BadMain" => ImportKind::BadMain,
+                    "Flaky" => ImportKind::Flaky,
+                    "FailTopDotted" => ImportKind::FailTopDotted,
                     _ => ImportKind::CaughtFailTop,
                 };
                 (Op::Import(k), None)
             }
+            "SetFlaky" => (Op::SetFlaky(o["fails"].as_bool().unwrap_or(false)), None),
+            "ClearModuleCache" => (Op::ClearCache, None),
+            "MakeNext" => (Op::MakeNext, None),
             "Call" => {
                 let name = o["function"].as_str().unwrap_or("");
                 let args = o["args"].as_array().cloned().unwrap_or_default();
-                if name == "GL" {
+                if name == "NPULL" {
+                    (Op::PullNext, None)
+                } else if name == "GL" {
                     (Op::CallNonCallable, None)
                 } else if name == "no_such_function" {
                     (Op::CallMissing, None)
@@ -1472,8 +1648,19 @@ fn expectations(h: &History) -> Vec<Value> {
     let mut cur: Option<(Program, Printed)> = None;
     let mut gen_state: Option<(usize, i64, bool)> = None;
     let mut first = true;
+    let mut okmod_loaded = false;
+    let mut host_model = HostModel::default();
     for op in &h.ops {
         let opts = || ModelOpts { tick_start: 0, finally_on_abrupt_exit: false };
+        crate::simmodel::set_okmod_loaded(okmod_loaded);
+        if let Some(pr) = host_model.predict(op, h.run_tests) {
+            okmod_loaded = crate::simmodel::okmod_loaded();
+            out.push(unwindsim::prediction_to_json(&pr));
+            continue;
+        }
+        if matches!(op, Op::Import(ImportKind::Ok)) {
+            crate::simmodel::set_okmod_loaded(true);
+        }
         match op {
             Op::Run { prog, plan, tests, main_call } => {
                 let printed = print_run(prog, first || h.run_tests, tests, *main_call);
@@ -1525,6 +1712,7 @@ fn expectations(h: &History) -> Vec<Value> {
             }
             _ => out.push(Value::Null),
         }
+        okmod_loaded = crate::simmodel::okmod_loaded();
     }
     out
 }
